@@ -462,6 +462,27 @@ def cmd_replay(args):
     f = json.load(open(args.file))
     pid = f["property"]
     spec = CHECKS[pid]
+    if f.get("class") == "race":
+        # a race report is not a schedule: the replay is the probe itself with the recorded seed
+        args.tier, args.seed = "quick", int(f.get("seed", 1))
+        with Scratch() as scratch:
+            r = race_probe(pid, spec, scratch, args.seed, args)
+        if r.get("violation"):
+            print(r.get("detail", "")[:3000])
+            print("VIOLATION property=%s replay=%s" % (pid, r["violation"]))
+            sys.exit(1)
+        print("race probe clean on the current tree")
+        sys.exit(0)
+    if f.get("stuck"):
+        with Scratch() as scratch:
+            overlay, rep_ = instrument(spec, scratch)
+            binp = build_harness(spec, scratch, overlay, replaces=rep_.get("_replaces"))
+            v, k, u = handle_failures_sched(pid, spec, [f], binp, scratch, int(f.get("seed", 1)))
+        if v or k:
+            print("VIOLATION property=%s replay=%s" % (pid, os.path.abspath(args.file)))
+            sys.exit(1)
+        print("not reproduced on the current tree")
+        sys.exit(0)
     with Scratch() as scratch:
         overlay, rep_ = instrument(spec, scratch)
         binp = build_harness(spec, scratch, overlay, replaces=rep_.get("_replaces"))
